@@ -2,6 +2,7 @@ package drivers
 
 import (
 	"crypto/x509"
+	"crypto/x509/pkix"
 	"fmt"
 	"math/big"
 	"os"
@@ -19,7 +20,11 @@ import (
 // C16: the signature validation mode means the same on every intake path.
 
 var c16Modes = []string{"", "verify", "verify_log", "none"}
-var c16Signers = []string{"resolvable", "unknown", "wrong-signature"}
+
+// the last two: genuinely signed by the issuing CA, but the CRL's authority key identifier cannot be evaluated (an empty
+// SEQUENCE; only authorityCertIssuer without a serial number). Whether such a CRL "fails verification" is the
+// implementation's call, so 'verify' is not judged for them; verify_log and none accept every parseable CRL.
+var c16Signers = []string{"resolvable", "unknown", "wrong-signature", "unevaluable-aki-empty", "unevaluable-aki-issuer-only"}
 var c16Paths = []string{"provision-crl_file", "provision-crl_url", "first-cdp-fetch-actively", "first-cdp-fetch-background", "periodic-refresh", "refresh-after-restart",
 	// a first run under signature_validation_mode none takes the configured CRL in; the process restarts on the same
 	// work_dir with the mode of the cell (the policy of the current configuration decides, not what the disk remembers)
@@ -81,6 +86,14 @@ func (c *c16Cast) doc(signer string, v int) []byte {
 	case "wrong-signature":
 		s := world.SimpleCRL(c.ca, int64(v), serials...)
 		s.BadSig = true
+		return s.DER()
+	case "unevaluable-aki-empty":
+		s := world.SimpleCRL(c.ca, int64(v), serials...)
+		s.Exts = []pkix.Extension{world.AKIExt(nil, nil, nil), world.CRLNumberExt(int64(v))}
+		return s.DER()
+	case "unevaluable-aki-issuer-only":
+		s := world.SimpleCRL(c.ca, int64(v), serials...)
+		s.Exts = []pkix.Extension{world.AKIExt(nil, c.ca.Cert.RawIssuer, nil), world.CRLNumberExt(int64(v))}
 		return s.DER()
 	default: // unknown: signed by a CA that is neither in the chain nor configured, under the issuing CA's name
 		s := world.SimpleCRL(c.unknownCA, int64(v), serials...)
@@ -381,6 +394,9 @@ func RunC16(tier string, args []string) int {
 				for _, disk := range []bool{false, true} {
 					for _, extra := range []bool{false, true} {
 						cell := c16Cell{mode, signer, path, disk, extra}
+						if strings.HasPrefix(signer, "unevaluable") && (mode == "" || mode == "verify") {
+							continue
+						}
 						obs, want := c.runCell(cell)
 						if want == nil && obs.Probes == nil && obs.ProvisionErr == "" {
 							continue
